@@ -77,10 +77,48 @@ ADDENDA = {
 }
 
 
+TYPED_NOTE = (" Typed flavours (harness/src/typed.rs): in every group of at least four shards of a cache-level engine each fourth shard runs the same "
+              "scenarios and oracles against a real CacheD<TKey, TVal> - boxed, heap-owning keys and values whose Hash / Eq / Clone / Drop "
+              "implementations are seeded schedule points inside user code (bounded yields, spins up to 60 us, sleeps up to 250 us: in the middle "
+              "of DashMap calls and between adjacent calls where the crate has no hook), which check their own consistency on every read and "
+              "are counted (observed.typed_*) - and, in groups of at least six, one shard stores values with a 40 KiB inline page, moved by "
+              "value through the command queue on the worker's stack (a shard aborted by a stack overflow is a C17 finding).")
+
+# engines whose subject is a whole CacheD (component monitors and sanitizer / Miri workloads keep their own types)
+_CACHE_LEVEL = ("seq", "conc")
+_PLAIN_ONLY = ("bare", "idle")
+
+
+def with_flavours(shards):
+    """Every fourth shard of a group (same engine + scenario) of >= 4 shards runs on the typed build, one shard of a group of >= 6 on the big one."""
+    groups = {}
+    for n, (argv, _) in enumerate(shards):
+        scenario = argv[argv.index("--scenario") + 1] if "--scenario" in argv else ""
+        if argv[0] in _CACHE_LEVEL and scenario not in _PLAIN_ONLY:
+            groups.setdefault((argv[0], scenario), []).append(n)
+    out = list(shards)
+    for members in groups.values():
+        g = len(members)
+        if g < 4:
+            continue
+        for j, n in enumerate(members):
+            argv, timeout = out[n]
+            if j % 4 == 3:
+                out[n] = (["typed/" + argv[0]] + argv[1:], timeout)
+            elif j == 1 and g >= 6:
+                out[n] = (["big/" + argv[0]] + argv[1:], timeout)
+    return out
+
+
 def plan(prop, tier, seed):
     out = _plan(prop, tier, seed)
     if out is not None and prop in ADDENDA:
         out["explanation"] = out["explanation"] + " Added after seeded changes were missed: " + ADDENDA[prop]
+    if out is not None:
+        out["shards"] = with_flavours(out["shards"])
+        if any("/" in argv[0] for argv, _ in out["shards"]):
+            out["explanation"] += TYPED_NOTE
+            out["assumptions"] = out["assumptions"] + ["typed flavours: the wrapper converts u64 ids / tokens to TKey / TVal at the API boundary; in the 40 KiB flavour the default weight function is replaced by one answering 40 / 64"]
     return out
 
 
